@@ -16,6 +16,8 @@ DEVIATIONS = {"depth-limit-panic": "-maxdepth N / -mindepth N are accepted by th
 FRAMES = [   # expression skeletons; "@" marks option slots
     ["@"], ["@", "@"], ["@", "-name x"], ["@", "@", "-print"], ["-true", "@"], ["-true", "@", "-false"], ["(", "@", "-o", "-false", ")"],
     ["!", "@"], ["@", "-true", "@"], ["@", "-name x", "@", "@"], ["-size +1k", "@", ",", "-print"],
+    # an option directly after a binary operator or a negation (it behaves as -true there, whatever the operator)
+    ["-name x", "-o", "@", "-name y"], ["-false", "-o", "@"], ["-name x", "-a", "@", "-print"], ["-name x", ",", "@", "-print"], ["-name x", "-o", "!", "@"],
     # an option glued to the token that follows it (no blank before ')' or ','), as every other primary may be written
     ["(", "-name x", "@)"], ["-false", "@,", "-true"], ["(", "@)", "-o", "-print"],
     # ... and glued to the token before it
